@@ -6,9 +6,16 @@
 EXTENDS MC_AutoReset, Json
 VARIABLE hist
 GInit == Init /\ hist = <<>>
-GNext == \E t \in Threads : \E l \in Labels : Act(t, l) /\ hist' = Append(hist, <<t, l>>)
+\* a notification that had a choice (head or tail): the real code picks the one with the higher address, so the
+\* schedule records <<picked, head, tail>> and the harness lays the wait futures out accordingly
+PickInfo == LET S == { a \in Threads : lc'[a] = "notified" /\ lc[a] = "waiting" } IN
+            IF S = {} \/ Len(wl) < 2 THEN <<>> ELSE << CHOOSE a \in S : TRUE, wl[1].a, wl[Len(wl)].a >>
+GNext == \E t \in Threads : \E l \in Labels : Act(t, l) /\ hist' = Append(hist, <<t, l>> \o PickInfo)
 GView == vars
 \* final: nothing left to do for anybody
 Final == Quiet /\ \A t \in Threads : wst[t] # "ready" /\ (nops[t] = MaxOps \/ Menu[t] = {})
 GenFinal == Final => PrintT(<<"SCHED", ToJson(hist)>>)
+\* state cover: one witness (the BFS path) per distinct state of the explorer; the driver keeps the witnesses that
+\* are not a prefix of another one
+GenAll == Len(hist) > 0 => PrintT(<<"SCHED", ToJson(hist)>>)
 ====
